@@ -1,0 +1,1 @@
+//! Verification hooks: regalloc (see mod.rs).
